@@ -93,7 +93,9 @@ CHECKS = {
         design_ref="DESIGN.md §5 C03",
         note="partial: nine of the ten setters are modelled statement by statement on both C++ types and proved end to end, "
              "the host setters under the bracket side condition (and, on the aggregator, for records whose file host is "
-             "present and whose text behind the credentials does not start with '@'); for set_href "
+             "present and whose text behind the credentials does not start with '@'); set_href is proved end to end on "
+             "ada::url (url_set_href_end_to_end_partial: it is the parser of C01 plus the size checks, same side "
+             "condition; replayed on every real set_href step), for url_aggregator::set_href "
              "conformance rests on the correspondence with the validated Spec (differential)."),
     "C04": dict(
         technique="Lean 4 proof that the model of ada::url (get_href fast/general path, get_href_size, get_components) "
@@ -161,6 +163,12 @@ CHECKS = {
         text="Gen/ParserExits.lean is re-extracted from parse_url_impl on every run; a theorem (decide) shows every exit "
              "that can hand out a valid stored URL is dominated by the size check (the dead AUTHORITY tail is justified by "
              "a 256-case table theorem). The setter layer model proves bounded / atomic / transparent for every history. "
+             "For ada::url's parser the limit is part of the model that C01 proves equal to the Standard's parser "
+             "(Model/ParseSpecial.limited: entry check on the raw input, enforce_max_length around the state machine): "
+             "parser_result_within_limit - whatever parseNoBaseL / parseWithBaseL hand out fits the limit and so did the input; "
+             "parser_limit_transparent - within the limit the answer is the Standard's, refusals are exactly 'input or "
+             "normalized href too long'; the limited model is run against ada::parse<ada::url> under set_max_input_length "
+             "(a third of C01's L1 calls carry a limit within a few bytes of the sizes involved). "
              "The implementation is run under limits within +-2 of every size involved and each step is compared with the "
              "same step on a copy with the limit lifted.",
         design_ref="DESIGN.md §5 C09",
